@@ -347,4 +347,9 @@ def run(ctx):
     f_embed(F, res)
     c11.wire(F, res)
     i_diag(F, res)
+    # a client that passes an argument explicitly gets that value, also when the environment has an entry of the same key
+    # (a tx parameter and an env field that share their lower-cased spelling): rule shared with C16
+    from . import c16
+    res.rule("S-ARGSWIN", "where args and env are merged, the explicit arguments come last (they win on a shared key)")
+    c16.precedence(F, res)
     return res
